@@ -235,7 +235,9 @@ SetRepeat(r) == repeat' = r /\ UNCHANGED <<image, transform, filter, out>>
 
 (* px: the pixels the destination shows afterwards *)
 Fetch(x0, y0, n, rows, px) ==
-    /\ Admissible(image, transform, filter, repeat, x0, y0, n, rows, px)
+    \* "= TRUE": TLC then evaluates the predicate as an expression (first witness of each \E suffices)
+    \* instead of enumerating every admissible position of every pixel as a separate successor
+    /\ Admissible(image, transform, filter, repeat, x0, y0, n, rows, px) = TRUE
     /\ out' = [x0 |-> x0, y0 |-> y0, n |-> n, rows |-> rows, px |-> px]
     /\ UNCHANGED <<image, transform, filter, repeat>>
 
